@@ -96,7 +96,7 @@ def _tail_checks(R, g, grid, model, mspec, label):
     for side, fr in (("left", fr_l), ("right", fr_r)):
         R.hit("tail_probability_checks")
         f = max(fr)
-        if abs(f - (1 - p)) > 1e-6 * (1 - p) + 1e-13:
+        if not (abs(f - (1 - p)) <= 1e-6 * (1 - p) + 1e-13):
             R.violation(f"{g['ctor']}-tail-probability", f"{label}: {g['ctor']} grid with truncation probability {p}: the {side} "
                         f"tail beyond the truncation holds {f!r} of the mass beyond h/2 (largest over the margins), promised "
                         f"{1 - p!r}", {"model": mspec, "grid": g, "l": l, "r": r, "fractions": fr})
@@ -127,7 +127,7 @@ def _probstep_checks(R, g, grid, model, mspec, label):
             continue
         # tolerance: two root searches with xtol 1e-10 on the position, times the local density
         slack = 4e-10 * max(dens(lo), dens(hi)) / inten + 1e-7 * pstep
-        if abs(mass / inten - pstep) > slack:
+        if not (abs(mass / inten - pstep) <= slack):
             R.violation("probstep-step-probability", f"{label}: probability-step grid (step {pstep}, h {h}): the step "
                         f"[{lo!r}, {hi!r}] has probability {mass / inten!r}", {"model": mspec, "grid": g, "axis": axis.tolist()})
     if not idx:
